@@ -1,4 +1,4 @@
-//go:build verif
+//go:build verif && !js
 
 package tcell
 
@@ -169,6 +169,10 @@ func H04_modes() {
 	}
 	switch vsymChoice("end", 3) {
 	case 0:
+		if w.suspended {
+			_ = e.s.Resume()
+			w.suspended = false
+		}
 		e.s.Fini()
 		e.h04Restored("after Fini")
 		n := len(e.tty.log)
@@ -184,10 +188,12 @@ func H04_modes() {
 		e.s.Fini()
 		vsymAssert(e.tty.writes == writes, "a second Fini writes nothing")
 	case 1:
-		if !w.suspended {
-			_ = e.s.Suspend()
-			w.suspended = true
+		if w.suspended {
+			// mode calls made while suspended take effect at Resume; judge a fresh Suspend
+			_ = e.s.Resume()
 		}
+		_ = e.s.Suspend()
+		w.suspended = true
 		e.h04Restored("after Suspend")
 		for _, l := range e.tty.log {
 			vsymAssert(l != "Close", "Suspend never closes the tty")
